@@ -334,3 +334,11 @@ pub fn checked_nth_root(target: u64, nth_root: u64) -> Option<u64> {
 
 #[cfg(test)]
 mod tests;
+
+#[cfg(all(kani, fuellabs_fuel_vm_verif))]
+mod verif {
+    include!(concat!(
+        env!("FUELLABS_FUEL_VM_VERIF_DIR"),
+        "/incrate/vm_instruction.rs"
+    ));
+}
